@@ -630,17 +630,118 @@ def _probe(prop, mode, fam, idx):
     return dict(result='compiles; behaves as documented')
 
 
+def embed_programs(payload):
+    """make a replay file self-contained: the text of every program it points to is stored next to the path"""
+    def visit(d):
+        if isinstance(d, dict):
+            for k in list(d.keys()):
+                v = d[k]
+                if k in ('program', 'src') and isinstance(v, str) and v.endswith('.rs') and os.path.exists(v) \
+                        and os.path.getsize(v) < 1500000:
+                    d[k + '_text'] = open(v).read()
+                else:
+                    visit(v)
+        elif isinstance(d, list):
+            for x in d:
+                visit(x)
+    visit(payload)
+
+
+def _find_program(d):
+    """(text, dict that holds it) of the first embedded program of a replay payload"""
+    if isinstance(d, dict):
+        for k in ('program_text', 'src_text'):
+            if k in d:
+                return d[k], d
+        for v in d.values():
+            r = _find_program(v)
+            if r:
+                return r
+    elif isinstance(d, list):
+        for x in d:
+            r = _find_program(x)
+            if r:
+                return r
+    return None
+
+
 def replay(prop, path):
+    """re-runs the failing input of a replay file against the current tree: an L1 case by its id, a compiled program from
+    its embedded text, a rustc verdict from its embedded program and expectation"""
+    import subprocess
     d = json.load(open(path))
+    if d.get('what') == 'proof obligation no longer checks' or 'row' in d and 'table' in d.get('what', ''):
+        # theorem / table lemma: re-audit
+        vlib.Build().harness()
+        vlib.regenerate_tables()
+        vlib.Build().lean()
+        audit, _ = vlib.audit_theorems(prop, PROPS[prop]['theorems'])
+        bad = [x for x in audit if not x['ok']]
+        if bad:
+            print(json.dumps(bad, indent=1)[:3000])
+            print(f'VIOLATION property={prop} replay={path} no-failing-input-found')
+            return 1
+        print('replay: every theorem of the property checks')
+        return 0
+    prog = _find_program(d)
+    if prog:
+        text, holder = prog
+        ok, log = l2.build_pm()
+        if not ok:
+            print(log[-2000:])
+            print(f'VIOLATION property={prop} replay={path} no-failing-input-found')
+            return 1
+        base = f'{vlib.WORK}/replays/replay-{prop}'
+        open(base + '.rs', 'w').write(text)
+        verdict_like = 'diagnostics' in d or 'expected' in d and 'accepted' in d
+        if verdict_like:
+            rc, diags = l2._verdict((base + '.rs', text))
+            accepted = rc == 0
+            if 'accepted' in d and 'expected' in d:
+                still = accepted == d['accepted']          # the verdict that was judged wrong is unchanged
+            else:
+                still = rc != 0 or bool(diags)
+            print(json.dumps(dict(accepted=accepted, diagnostics=diags[:4]), indent=1)[:3000])
+        else:
+            c = l2.rustc(base + '.rs', base + '.bin')
+            if c.returncode != 0:
+                print(c.stderr[-3000:])
+                still = True
+            else:
+                r = subprocess.run([base + '.bin'], capture_output=True, text=True)
+                out = r.stdout.splitlines()
+                want = d.get('expected') or (d.get('probe') or {}).get('documented')
+                fails = [l for l in out if ' FAIL ' in l]
+                if isinstance(want, str) and want and not want.startswith('<'):
+                    still = want not in out
+                elif d.get('law') or (d.get('probe') or {}).get('law'):
+                    rows = {}
+                    for line in out:
+                        parts = line.split(' ', 2)
+                        if len(parts) >= 2:
+                            rows.setdefault('replay:' + parts[0], []).append((parts[1], parts[2] if len(parts) == 3 else ''))
+                    bad, _ = l2.law_violations(rows, {})
+                    still = bool(bad)
+                    print(json.dumps(bad[:1], indent=1)[:2000])
+                else:
+                    still = bool(fails) or r.returncode != 0
+                    print('\n'.join(fails[:5]))
+        if still:
+            print(f'VIOLATION property={prop} replay={path}')
+            return 1
+        print('replay: the program no longer shows the failure')
+        return 0
     cid = d.get('case')
-    if not cid:
+    if not cid or cid.split('/')[0] in ('c13', 'c20', 'c17', 'c14e', 'c11r', 'c18r'):
         print(json.dumps(d, indent=1)[:4000])
+        print('replay: this record carries no executable input; re-run the check itself')
         return 1
     fam, *rest = cid.split('/')
-    seed, idx = (rest + ['0'])[-2:] if len(rest) >= 2 else ('0', rest[0])
+    seed, idx = (rest[-2], rest[-1]) if len(rest) >= 2 else ('0', rest[0])
     b = vlib.Build()
-    b.lean()
     b.harness()
+    vlib.regenerate_tables()
+    b.lean()
     res = vlib.run_l1(prop + '-replay', fam, int(seed), 1, start=int(idx))
     bad = [m for m in res['mismatches'] if vlib.relevant(m, PROPS[prop]['labels'])]
     if bad:
